@@ -3,9 +3,10 @@ import Emerge.Proofs.Utf8
 /-
   C13 — what emerge derives depends only on the token sequence, not on layout or padding.
 
-  After the `fix:` commits the EBNF lexer keeps the dependency's two-half reader away from its
-  reload path (the buffer holds the whole source), so the model has no buffer: the source is one
-  rune list and the theorems below are about the scanner model over the regenerated tables.
+  The EBNF lexer scans the source from memory with a reader of its own (repair 027b8ad; before that the
+  dependency's two-half reader, kept away from its reload path by a buffer that held the whole source), so
+  the model has no buffer: the source is one rune list and the theorems below are about the scanner model
+  over the regenerated tables.
   The parser consumes only the kinds and lexemes of the tokens (`Emerge.LR.parse` takes the list
   of kinds), so layout can influence the result only through the token list.
 -/
